@@ -125,6 +125,43 @@ def pairs_on_real_isotherms(seed, thorough=False):
         yield {'name': f"{b}|after:{a}", 'ok': ok, 'detail': detail}
 
 
+def model_pairs():
+    """ordered pairs of read-only queries on a *model* isotherm (parameters with many significant digits, pressures in Pa)"""
+    import pygaps
+    import pygaps.modelling as pgm
+    pygaps.logger.disabled = True
+
+    def mk():
+        m = pgm.get_isotherm_model('Langmuir')
+        m.params = {'K': 1.2345678e-05, 'n_m': 4.199999999999797}
+        m.pressure_range, m.loading_range, m.rmse = (0.0, 1e5), (0.0, 4.0), 0.0
+        return pygaps.ModelIsotherm(model=m, material='pgv_c04', adsorbate='nitrogen', temperature=77.355, pressure_mode='absolute', pressure_unit='Pa',
+                                    loading_basis='molar', loading_unit='mmol', material_basis='mass', material_unit='g', temperature_unit='K')
+    Q = {
+        'iso_id': lambda i: i.iso_id, 'eq': lambda i: i == mk(), 'to_json': lambda i: i.to_json(), 'to_csv': lambda i: i.to_csv(), 'to_aif': lambda i: i.to_aif(),
+        'to_dict': lambda i: str(i.to_dict()), 'loading_at': lambda i: i.loading_at(30000.0), 'pressure_at': lambda i: i.pressure_at(1.5),
+        'spreading_pressure_at': lambda i: i.spreading_pressure_at(30000.0), 'loading_at(kPa)': lambda i: i.loading_at(30.0, pressure_unit='kPa'),
+    }
+    for a in Q:
+        for b in Q:
+            fresh, used = mk(), mk()
+            o_fresh = _run(Q[b], fresh)
+            before = (dict(used.model.params), str(used.to_dict()))
+            _run(Q[a], used)
+            o_used = _run(Q[b], used)
+            after = (dict(used.model.params), str(used.to_dict()))
+            ok = _eq(o_fresh, o_used) and before == after if b not in ('to_json', 'to_csv', 'to_aif', 'to_dict') else (o_fresh == o_used and before == after)
+            yield {'name': f"model:{b}|after:{a}", 'ok': bool(ok), 'detail': '' if ok else f"fresh {str(o_fresh)[:70]} / after {a}: {str(o_used)[:70]} / model unchanged: {before == after}"}
+
+
+@replayer('c04.modelpair')
+def _modelpair(spec, model):
+    for r in model_pairs():
+        if r['name'] == spec['name']:
+            return {'confirmed': not r['ok'], 'observed': r['detail'], 'expected': 'same outcome as on a fresh model isotherm; model unchanged'}
+    return {'confirmed': False, 'error': 'case not found'}
+
+
 @replayer('c04.realpair')
 def _realpair(spec, model):
     b, a = spec['name'].split('|after:')
